@@ -212,8 +212,12 @@ def _child(d, argv, sim, out_fd):
     tagging.uuid4 = names.uuid4
     bf.uuid = names
     if sim.get('real_pool'):
+        # fidelity cross-check of the stub: the real fork-based pool.  Forked workers would all inherit the same
+        # name stream (-> identical temp file names), so the real uuid4 is left in place for the workers.
         import multiprocessing
         tm.Pool = multiprocessing.get_context('fork').Pool
+        tagging.uuid4 = _uuid.uuid4
+        bf.uuid = _uuid
     if sim.get('faults') is not None:
         bf.pysam = _ModProxy(pysam, faults, 'pysam', wrap_writer=True)
         bf.os = _ModProxy(os, faults, 'os')
